@@ -2,4 +2,941 @@
 import TjdModel.Autojac.Typing
 namespace Tjd.Typing
 
+/-! ### key lists as sets -/
+
+theorem subset_iff (a b : List Key) : subset a b = true ↔ ∀ k, k ∈ a → k ∈ b := by
+  simp [subset, List.all_eq_true]
+
+theorem seteq_iff' (a b : List Key) : seteq a b = true ↔ ∀ k, k ∈ a ↔ k ∈ b := by
+  simp only [seteq, Bool.and_eq_true, subset_iff]
+  constructor
+  · rintro ⟨h1, h2⟩ k
+    exact ⟨h1 k, h2 k⟩
+  · intro h
+    exact ⟨fun k => (h k).1, fun k => (h k).2⟩
+
+theorem mem_dedup (k : Key) (l : List Key) : k ∈ dedup l ↔ k ∈ l := by
+  induction l with
+  | nil => simp [dedup]
+  | cons a l ih =>
+    simp only [dedup]
+    split
+    · rename_i h
+      have : a ∈ l := by simpa using h
+      rw [ih, List.mem_cons]
+      constructor
+      · exact Or.inr
+      · rintro (rfl | h)
+        · exact this
+        · exact h
+    · simp [ih]
+
+theorem dedup_nodup (l : List Key) : (dedup l).Nodup := by
+  induction l with
+  | nil => simp [dedup]
+  | cons a l ih =>
+    simp only [dedup]
+    split
+    · exact ih
+    · rename_i h
+      have : a ∉ l := by simpa using h
+      rw [List.nodup_cons]
+      exact ⟨by rwa [mem_dedup], ih⟩
+
+theorem hasDup_eq_false_iff (l : List Key) : hasDup l = false ↔ l.Nodup := by
+  induction l with
+  | nil => simp [hasDup]
+  | cons a l ih =>
+    simp [hasDup, List.nodup_cons, ih]
+
+theorem hasDup_eq_true_iff (l : List Key) : hasDup l = true ↔ ¬ l.Nodup := by
+  rw [← hasDup_eq_false_iff]; simp
+
+/-! ### induction principle for terms -/
+
+theorem Term.induct' {P : Term → Prop} {Q : List Term → Prop}
+    (init : ∀ ks, P (.init ks)) (select : ∀ ks req, P (.select ks req))
+    (diag : ∀ ks, P (.diag ks)) (acc : ∀ ks, P (.acc ks))
+    (stack : ∀ ts, Q ts → P (.stack ts)) (conj : ∀ ts, Q ts → P (.conj ts))
+    (comp : ∀ o i, P o → P i → P (.comp o i))
+    (nil : Q []) (cons : ∀ t ts, P t → Q ts → Q (t :: ts)) : (∀ t, P t) ∧ (∀ ts, Q ts) :=
+  ⟨fun t => Term.rec (motive_1 := P) (motive_2 := Q) init select diag acc stack conj comp nil cons t,
+   fun ts => Term.rec_1 (motive_1 := P) (motive_2 := Q) init select diag acc stack conj comp nil
+      cons ts⟩
+
+/-! ### Except plumbing and build errors -/
+
+theorem bind_ok_iff {α β : Type} (x : Except Err α) (f : α → Except Err β) (b : β) :
+    (x >>= f) = .ok b ↔ ∃ a, x = .ok a ∧ f a = .ok b := by
+  cases x <;> simp [bind, Except.bind]
+
+theorem bind_error_iff {α β : Type} (x : Except Err α) (f : α → Except Err β) (e : Err) :
+    (x >>= f) = .error e ↔ x = .error e ∨ ∃ a, x = .ok a ∧ f a = .error e := by
+  cases x <;> simp [bind, Except.bind]
+
+@[simp] theorem pure_eq_ok {α : Type} (a : α) : (pure a : Except Err α) = .ok a := rfl
+@[simp] theorem throw_eq_error {α : Type} (e : Err) : (throw e : Except Err α) = .error e := rfl
+
+theorem ite_ok_iff {α : Type} (c : Prop) [Decidable c] (a b : α) (e : Err) :
+    (if c then (Except.ok a : Except Err α) else .error e) = .ok b ↔ c ∧ a = b := by
+  split <;> simp [*]
+
+theorem ite_error_iff {α : Type} (c : Prop) [Decidable c] (a : α) (e e' : Err) :
+    (if c then (Except.ok a : Except Err α) else .error e) = .error e' ↔ ¬ c ∧ e = e' := by
+  split <;> simp [*]
+
+theorem build_error_aux :
+    (∀ t, ∀ e, build t = .error e → e = .value) ∧
+    (∀ ts, ∀ e, buildList ts = .error e → e = .value) := by
+  apply Term.induct'
+  · intro ks e h; simp [build] at h
+  · intro ks req e h
+    simp only [build, pure_eq_ok, throw_eq_error, ite_error_iff] at h
+    exact h.2.symm
+  · intro ks e h
+    simp only [build, pure_eq_ok, throw_eq_error] at h
+    split at h <;> simp at h
+    exact h.symm
+  · intro ks e h; simp [build] at h
+  · intro ts ih e h
+    simp only [build, bind_error_iff, pure_eq_ok, throw_eq_error, ite_error_iff] at h
+    rcases h with h | ⟨a, _, _, h⟩
+    · exact ih e h
+    · exact h.symm
+  · intro ts ih e h
+    simp only [build, bind_error_iff, pure_eq_ok, throw_eq_error] at h
+    rcases h with h | ⟨a, _, h⟩
+    · exact ih e h
+    · split at h
+      · split at h <;> simp at h
+        exact h.symm
+      · simp at h; exact h.symm
+  · intro o i iho ihi e h
+    simp only [build, bind_error_iff, pure_eq_ok, throw_eq_error, ite_error_iff] at h
+    rcases h with h | ⟨a, _, h | ⟨b, _, _, h⟩⟩
+    · exact iho e h
+    · exact ihi e h
+    · exact h.symm
+  · intro e h; simp [buildList] at h
+  · intro t ts iht ihts e h
+    simp only [buildList, bind_error_iff, pure_eq_ok] at h
+    rcases h with h | ⟨a, _, h | ⟨b, _, h⟩⟩
+    · exact iht e h
+    · exact ihts e h
+    · simp at h
+/-! ### characterisation of successful builds -/
+
+theorem build_comp_ok_iff (o i : Term) (σ : Sig) :
+    build (.comp o i) = .ok σ ↔
+      ∃ σo σi, build o = .ok σo ∧ build i = .ok σi ∧ (∀ k, k ∈ σo.required ↔ k ∈ σi.output) ∧
+        σ = ⟨σi.required, σo.output⟩ := by
+  simp only [build, bind_ok_iff, pure_eq_ok, throw_eq_error, ite_ok_iff, seteq_iff']
+  constructor
+  · rintro ⟨a, ha, b, hb, h, rfl⟩
+    exact ⟨a, b, ha, hb, h, rfl⟩
+  · rintro ⟨a, b, ha, hb, h, rfl⟩
+    exact ⟨a, ha, b, hb, h, rfl⟩
+
+/-- all members require (as sets) the union of the requirements iff they pairwise agree -/
+theorem all_seteq_union_iff (sigs : List Sig) :
+    (sigs.all fun s => seteq s.required (dedup (sigs.flatMap (·.required)))) = true ↔
+      ∀ s ∈ sigs, ∀ s' ∈ sigs, ∀ k, k ∈ s.required ↔ k ∈ s'.required := by
+  simp only [List.all_eq_true, seteq_iff', mem_dedup, List.mem_flatMap]
+  constructor
+  · intro h s hs s' hs' k
+    rw [h s hs k, h s' hs' k]
+  · intro h s hs k
+    constructor
+    · intro hk; exact ⟨s, hs, hk⟩
+    · rintro ⟨s', hs', hk⟩; exact (h s' hs' s hs k).1 hk
+
+theorem build_conj_ok_iff (ts : List Term) (σ : Sig) :
+    build (.conj ts) = .ok σ ↔
+      ∃ sigs, buildList ts = .ok sigs ∧
+        (∀ s ∈ sigs, ∀ s' ∈ sigs, ∀ k, k ∈ s.required ↔ k ∈ s'.required) ∧
+        (sigs.flatMap (·.output)).Nodup ∧
+        σ = ⟨dedup (sigs.flatMap (·.required)), sigs.flatMap (·.output)⟩ := by
+  simp only [build, bind_ok_iff, pure_eq_ok, throw_eq_error]
+  constructor
+  · rintro ⟨sigs, hs, h⟩
+    refine ⟨sigs, hs, ?_⟩
+    split at h
+    · rename_i hall
+      split at h
+      · simp at h
+      · rename_i hd
+        rw [Bool.not_eq_true, hasDup_eq_false_iff] at hd
+        simp only [Except.ok.injEq] at h
+        exact ⟨(all_seteq_union_iff sigs).1 hall, hd, h.symm⟩
+    · simp at h
+  · rintro ⟨sigs, hs, hreq, hnd, rfl⟩
+    refine ⟨sigs, hs, ?_⟩
+    rw [if_pos ((all_seteq_union_iff sigs).2 hreq)]
+    have : hasDup (sigs.flatMap (·.output)) = false := (hasDup_eq_false_iff _).2 hnd
+    simp [this]
+
+theorem build_stack_ok_iff (ts : List Term) (σ : Sig) :
+    build (.stack ts) = .ok σ ↔
+      ∃ sigs, buildList ts = .ok sigs ∧
+        (∀ s ∈ sigs, ∀ s' ∈ sigs, ∀ k, k ∈ s.required ↔ k ∈ s'.required) ∧
+        σ = ⟨dedup (sigs.flatMap (·.required)), dedup (sigs.flatMap (·.output))⟩ := by
+  simp only [build, bind_ok_iff, pure_eq_ok, throw_eq_error, ite_ok_iff, all_seteq_union_iff]
+  constructor
+  · rintro ⟨sigs, hs, h, rfl⟩
+    exact ⟨sigs, hs, h, rfl⟩
+  · rintro ⟨sigs, hs, h, rfl⟩
+    exact ⟨sigs, hs, h, rfl⟩
+
+theorem buildList_cons_ok_iff (t : Term) (ts : List Term) (sigs : List Sig) :
+    buildList (t :: ts) = .ok sigs ↔
+      ∃ s ss, build t = .ok s ∧ buildList ts = .ok ss ∧ sigs = s :: ss := by
+  simp only [buildList, bind_ok_iff, pure_eq_ok, Except.ok.injEq]
+  constructor
+  · rintro ⟨s, hs, ss, hss, rfl⟩; exact ⟨s, ss, hs, hss, rfl⟩
+  · rintro ⟨s, ss, hs, hss, rfl⟩; exact ⟨s, hs, ss, hss, rfl⟩
+
+@[simp] theorem buildList_nil : buildList [] = .ok [] := by simp [buildList]
+
+theorem build_output_nodup' : ∀ (t : Term) (σ : Sig), build t = .ok σ → σ.output.Nodup := by
+  refine (Term.induct' (P := fun t => ∀ σ, build t = .ok σ → σ.output.Nodup)
+    (Q := fun _ => True) ?_ ?_ ?_ ?_ ?_ ?_ ?_ trivial (fun _ _ _ _ => trivial)).1
+  · intro ks σ h
+    simp only [build, pure_eq_ok, Except.ok.injEq] at h
+    subst h; exact dedup_nodup _
+  · intro ks req σ h
+    simp only [build, pure_eq_ok, throw_eq_error, ite_ok_iff] at h
+    rw [← h.2]; exact dedup_nodup _
+  · intro ks σ h
+    simp only [build, pure_eq_ok, throw_eq_error] at h
+    split at h
+    · simp at h
+    · rename_i hd
+      rw [Bool.not_eq_true, hasDup_eq_false_iff] at hd
+      simp only [Except.ok.injEq] at h
+      subst h; exact hd
+  · intro ks σ h
+    simp only [build, pure_eq_ok, Except.ok.injEq] at h
+    subst h; simp
+  · intro ts _ σ h
+    obtain ⟨sigs, _, _, rfl⟩ := (build_stack_ok_iff ts σ).1 h
+    exact dedup_nodup _
+  · intro ts _ σ h
+    obtain ⟨sigs, _, _, hnd, rfl⟩ := (build_conj_ok_iff ts σ).1 h
+    exact hnd
+  · intro o i iho _ σ h
+    obtain ⟨σo, σi, ho, _, _, rfl⟩ := (build_comp_ok_iff o i σ).1 h
+    exact iho σo ho
+
+/-! ### dictionary constructors -/
+
+theorem mkDict_td (ks : Key → Shape) (es : List (Key × Shape)) :
+    mkDict ks .td es = .ok ⟨.td, es⟩ := by
+  simp only [mkDict]; rfl
+
+theorem mkDict_grads_eq (ks : Key → Shape) (es : List (Key × Shape)) :
+    mkDict ks .grads es =
+      if es.all (fun e => e.2 == ks e.1) then .ok ⟨.grads, es⟩ else .error .value := by
+  simp only [mkDict]; rfl
+
+theorem mkDict_empty_eq (ks : Key → Shape) (es : List (Key × Shape)) :
+    mkDict ks .empty es = if es.isEmpty then .ok ⟨.empty, es⟩ else .error .value := by
+  simp only [mkDict]; rfl
+
+theorem mkDict_gvecs_eq (ks : Key → Shape) (es : List (Key × Shape)) :
+    mkDict ks .gvecs es =
+      if es.all (fun e => e.2.length == 1 && e.2.headD 0 == numel (ks e.1)) then .ok ⟨.gvecs, es⟩
+      else .error .value := by
+  simp only [mkDict]; rfl
+
+theorem mkDict_jacs_eq (ks : Key → Shape) (es : List (Key × Shape)) :
+    mkDict ks .jacs es = (checkUniqueFirstDim es >>= fun _ =>
+      if es.all (fun e => e.2.drop 1 == ks e.1) then .ok ⟨.jacs, es⟩ else .error .value) := by
+  simp only [mkDict]; rfl
+
+theorem mkDict_jmats_eq (ks : Key → Shape) (es : List (Key × Shape)) :
+    mkDict ks .jmats es = (checkUniqueFirstDim es >>= fun _ =>
+      if es.all (fun e => e.2.length == 2 && e.2.getD 1 0 == numel (ks e.1)) then .ok ⟨.jmats, es⟩
+      else .error .value) := by
+  simp only [mkDict]; rfl
+
+theorem mkDict_preserves (ks : Key → Shape) (ty : DType) (es : List (Key × Shape)) (d : Dict)
+    (h : mkDict ks ty es = .ok d) : d = ⟨ty, es⟩ := by
+  cases ty
+  · rw [mkDict_td] at h; simpa using h.symm
+  · rw [mkDict_grads_eq, ite_ok_iff] at h; exact h.2.symm
+  · simp only [mkDict_jacs_eq, bind_ok_iff, ite_ok_iff] at h
+    obtain ⟨_, _, _, h⟩ := h; exact h.symm
+  · rw [mkDict_gvecs_eq, ite_ok_iff] at h; exact h.2.symm
+  · simp only [mkDict_jmats_eq, bind_ok_iff, ite_ok_iff] at h
+    obtain ⟨_, _, _, h⟩ := h; exact h.symm
+  · rw [mkDict_empty_eq, ite_ok_iff] at h; exact h.2.symm
+
+theorem mkDict_ok_iff (ks : Key → Shape) (ty : DType) (es : List (Key × Shape)) (d : Dict) :
+    mkDict ks ty es = .ok d ↔ (∃ d', mkDict ks ty es = .ok d') ∧ d = ⟨ty, es⟩ := by
+  constructor
+  · intro h; exact ⟨⟨d, h⟩, mkDict_preserves ks ty es d h⟩
+  · rintro ⟨⟨d', h⟩, rfl⟩
+    rw [h, mkDict_preserves ks ty es d' h]
+
+theorem mkDict_grads_iff (ks : Key → Shape) (es : List (Key × Shape)) :
+    (∃ d, mkDict ks .grads es = .ok d) ↔ ∀ e ∈ es, e.2 = ks e.1 := by
+  simp only [mkDict_grads_eq, ite_ok_iff, List.all_eq_true, beq_iff_eq]
+  constructor
+  · rintro ⟨d, h, _⟩; exact h
+  · intro h; exact ⟨_, h, rfl⟩
+
+theorem mkDict_empty_iff (ks : Key → Shape) (es : List (Key × Shape)) :
+    (∃ d, mkDict ks .empty es = .ok d) ↔ es = [] := by
+  simp only [mkDict_empty_eq, ite_ok_iff, List.isEmpty_iff]
+  constructor
+  · rintro ⟨d, h, _⟩; exact h
+  · intro h; exact ⟨_, h, rfl⟩
+
+theorem shape_len1_iff (s : Shape) (n : Nat) :
+    (s.length == 1 && s.headD 0 == n) = true ↔ s = [n] := by
+  match s with
+  | [] => simp
+  | [a] => simp
+  | a :: b :: r => simp
+
+theorem shape_len2_iff (s : Shape) (n : Nat) :
+    (s.length == 2 && s.getD 1 0 == n) = true ↔ ∃ m, s = [m, n] := by
+  match s with
+  | [] => simp
+  | [a] => simp
+  | [a, b] => simp
+  | a :: b :: c :: r => simp
+
+theorem mkDict_gvecs_iff (ks : Key → Shape) (es : List (Key × Shape)) :
+    (∃ d, mkDict ks .gvecs es = .ok d) ↔ ∀ e ∈ es, e.2 = [numel (ks e.1)] := by
+  simp only [mkDict_gvecs_eq, ite_ok_iff, List.all_eq_true, shape_len1_iff]
+  constructor
+  · rintro ⟨d, h, _⟩; exact h
+  · intro h; exact ⟨_, h, rfl⟩
+
+def firstDim (x : Key × Shape) : Except Err Nat :=
+  match x.2 with
+  | [] => .error .other
+  | d :: _ => .ok d
+
+theorem mapM_firsts_ok_iff (es : List (Key × Shape)) (firsts : List Nat) :
+    es.mapM firstDim = .ok firsts ↔
+      (∀ e ∈ es, e.2 ≠ []) ∧ firsts = es.map (fun e => e.2.headD 0) := by
+  induction es generalizing firsts with
+  | nil => simp [eq_comm]
+  | cons e es ih =>
+    obtain ⟨k, s⟩ := e
+    simp only [List.mapM_cons, bind_ok_iff, pure_eq_ok, ih]
+    cases s with
+    | nil => simp [firstDim]
+    | cons a s =>
+      simp only [firstDim, Except.ok.injEq, List.mem_cons, forall_eq_or_imp, ne_eq, reduceCtorEq,
+        not_false_eq_true, true_and, List.map_cons, List.headD_cons]
+      constructor
+      · rintro ⟨_, rfl, bs, ⟨h, rfl⟩, rfl⟩; exact ⟨h, rfl⟩
+      · rintro ⟨h, rfl⟩; exact ⟨a, rfl, _, ⟨h, rfl⟩, rfl⟩
+
+theorem checkUniqueFirstDim_eq (es : List (Key × Shape)) :
+    checkUniqueFirstDim es = (es.mapM firstDim >>= fun firsts =>
+      match firsts with
+      | [] => .ok ()
+      | d :: rest => if rest.all (· == d) then .ok () else .error .value) := rfl
+
+theorem checkUniqueFirstDim_ok_iff (es : List (Key × Shape)) :
+    checkUniqueFirstDim es = .ok () ↔ ∃ m : Nat, ∀ e ∈ es, ∃ tl, e.2 = m :: tl := by
+  simp only [checkUniqueFirstDim_eq, bind_ok_iff, mapM_firsts_ok_iff]
+  constructor
+  · rintro ⟨firsts, ⟨hne, rfl⟩, h⟩
+    cases es with
+    | nil => exact ⟨0, by simp⟩
+    | cons e es =>
+      simp only [List.map_cons, ite_ok_iff, List.all_eq_true,
+        List.mem_map, beq_iff_eq, forall_exists_index, and_imp, forall_apply_eq_imp_iff₂,
+        and_true] at h
+      refine ⟨e.2.headD 0, ?_⟩
+      intro e' he'
+      have hne' := hne e' he'
+      rcases List.mem_cons.1 he' with rfl | hmem
+      · cases h2 : e'.2 with
+        | nil => exact absurd h2 hne'
+        | cons a tl => exact ⟨tl, by simp⟩
+      · have := h e' hmem
+        cases h2 : e'.2 with
+        | nil => exact absurd h2 hne'
+        | cons a tl =>
+          rw [h2] at this
+          simp only [List.headD_cons] at this
+          exact ⟨tl, by rw [this]⟩
+  · rintro ⟨m, hm⟩
+    refine ⟨es.map (fun e => e.2.headD 0), ⟨?_, rfl⟩, ?_⟩
+    · intro e he
+      obtain ⟨tl, h⟩ := hm e he
+      simp [h]
+    · cases es with
+      | nil => simp
+      | cons e es =>
+        simp only [List.map_cons, ite_ok_iff, List.all_eq_true,
+          List.mem_map, beq_iff_eq, forall_exists_index, and_imp, forall_apply_eq_imp_iff₂,
+          and_true]
+        intro e' he'
+        obtain ⟨tl, h⟩ := hm e (List.mem_cons_self)
+        obtain ⟨tl', h'⟩ := hm e' (List.mem_cons_of_mem _ he')
+        simp [h, h']
+
+theorem mkDict_jacs_iff (ks : Key → Shape) (es : List (Key × Shape)) :
+    (∃ d, mkDict ks .jacs es = .ok d) ↔ ∃ m : Nat, ∀ e ∈ es, e.2 = m :: ks e.1 := by
+  simp only [mkDict_jacs_eq, bind_ok_iff, ite_ok_iff, List.all_eq_true, beq_iff_eq]
+  constructor
+  · rintro ⟨d, _, hc, h, _⟩
+    obtain ⟨m, hm⟩ := (checkUniqueFirstDim_ok_iff es).1 hc
+    refine ⟨m, fun e he => ?_⟩
+    obtain ⟨tl, htl⟩ := hm e he
+    have := h e he
+    simp only [htl, List.drop_succ_cons, List.drop_zero] at this
+    rw [htl, this]
+  · rintro ⟨m, hm⟩
+    refine ⟨_, (), (checkUniqueFirstDim_ok_iff es).2 ⟨m, fun e he => ⟨_, hm e he⟩⟩,
+      fun e he => ?_, rfl⟩
+    simp [hm e he]
+
+theorem mkDict_jmats_iff (ks : Key → Shape) (es : List (Key × Shape)) :
+    (∃ d, mkDict ks .jmats es = .ok d) ↔ ∃ m : Nat, ∀ e ∈ es, e.2 = [m, numel (ks e.1)] := by
+  simp only [mkDict_jmats_eq, bind_ok_iff, ite_ok_iff, List.all_eq_true, shape_len2_iff]
+  constructor
+  · rintro ⟨d, _, hc, h, _⟩
+    obtain ⟨m, hm⟩ := (checkUniqueFirstDim_ok_iff es).1 hc
+    refine ⟨m, fun e he => ?_⟩
+    obtain ⟨tl, htl⟩ := hm e he
+    obtain ⟨m', hm'⟩ := h e he
+    rw [hm'] at htl ⊢
+    simp only [List.cons.injEq] at htl
+    rw [htl.1]
+  · rintro ⟨m, hm⟩
+    exact ⟨_, (), (checkUniqueFirstDim_ok_iff es).2 ⟨m, fun e he => ⟨_, hm e he⟩⟩,
+      fun e he => ⟨m, hm e he⟩, rfl⟩
+
+/-- success of `mkDict` only depends on the *set* of entries -/
+theorem mkDict_ok_congr (ks : Key → Shape) (ty : DType) (es es' : List (Key × Shape))
+    (hmem : ∀ e, e ∈ es ↔ e ∈ es') (h : ∃ d, mkDict ks ty es = .ok d) :
+    ∃ d, mkDict ks ty es' = .ok d := by
+  cases ty with
+  | td => exact ⟨_, mkDict_td ks es'⟩
+  | grads =>
+    rw [mkDict_grads_iff] at h ⊢
+    exact fun e he => h e ((hmem e).2 he)
+  | jacs =>
+    rw [mkDict_jacs_iff] at h ⊢
+    obtain ⟨m, h⟩ := h
+    exact ⟨m, fun e he => h e ((hmem e).2 he)⟩
+  | gvecs =>
+    rw [mkDict_gvecs_iff] at h ⊢
+    exact fun e he => h e ((hmem e).2 he)
+  | jmats =>
+    rw [mkDict_jmats_iff] at h ⊢
+    obtain ⟨m, h⟩ := h
+    exact ⟨m, fun e he => h e ((hmem e).2 he)⟩
+  | empty =>
+    rw [mkDict_empty_iff] at h ⊢
+    subst h
+    cases es' with
+    | nil => rfl
+    | cons e es' => exact absurd ((hmem e).2 List.mem_cons_self) (by simp)
+
+/-! ### guardKeys and apply: rejection -/
+
+theorem guardKeys_error (e : Err) (d : Dict) (body : Unit → Except Err Dict) :
+    guardKeys (.error e) d body = .error e := rfl
+
+theorem guardKeys_ok (σ : Sig) (d : Dict) (body : Unit → Except Err Dict) :
+    guardKeys (.ok σ) d body = if seteq σ.required d.keys then body () else .error .value := rfl
+
+theorem guardKeys_ok_iff (sig : Except Err Sig) (d r : Dict) (body : Unit → Except Err Dict) :
+    guardKeys sig d body = .ok r ↔
+      ∃ σ, sig = .ok σ ∧ (∀ k, k ∈ σ.required ↔ k ∈ d.keys) ∧ body () = .ok r := by
+  cases sig with
+  | error e => simp [guardKeys_error]
+  | ok σ =>
+    rw [guardKeys_ok]
+    split
+    · rename_i h
+      rw [seteq_iff'] at h
+      simp [h]
+    · rename_i h
+      rw [seteq_iff'] at h
+      simp [h]
+
+theorem apply_eq_guard (ks : Key → Shape) (t : Term) (d : Dict) :
+    ∃ body, apply ks t d = guardKeys (build t) d body := by
+  cases t <;> exact ⟨_, by rw [apply]⟩
+
+theorem apply_unbuildable' (ks : Key → Shape) (t : Term) (e : Err) (d : Dict)
+    (hb : build t = .error e) : apply ks t d = .error e := by
+  obtain ⟨body, h⟩ := apply_eq_guard ks t d
+  rw [h, hb]; rfl
+
+theorem apply_wrong_keys' (ks : Key → Shape) (t : Term) (σ : Sig) (d : Dict)
+    (hb : build t = .ok σ) (hk : ¬ ∀ k, k ∈ σ.required ↔ k ∈ d.keys) :
+    apply ks t d = .error .value := by
+  obtain ⟨body, h⟩ := apply_eq_guard ks t d
+  rw [h, hb, guardKeys_ok]
+  rw [← seteq_iff'] at hk
+  simp [hk]
+
+theorem apply_ok_required (ks : Key → Shape) (t : Term) (σ : Sig) (d d' : Dict)
+    (hb : build t = .ok σ) (ha : apply ks t d = .ok d') : ∀ k, k ∈ σ.required ↔ k ∈ d.keys := by
+  obtain ⟨body, h⟩ := apply_eq_guard ks t d
+  rw [h, guardKeys_ok_iff, hb] at ha
+  obtain ⟨σ', h1, h2, _⟩ := ha
+  cases h1
+  exact h2
+
+/-! ### keys of computed dictionaries -/
+
+@[simp] theorem error_bind {α β : Type} (e : Err) (f : α → Except Err β) :
+    ((Except.error e : Except Err α) >>= f) = .error e := rfl
+@[simp] theorem ok_bind {α β : Type} (a : α) (f : α → Except Err β) :
+    ((Except.ok a : Except Err α) >>= f) = f a := rfl
+
+theorem diagEntries_keys (ks : Key → Shape) (L : Nat) (l : List Key) (b : Nat)
+    (es : List (Key × Shape)) (h : diagEntries ks L l b = .ok es) : es.map (·.1) = l := by
+  induction l generalizing b es with
+  | nil => simp [diagEntries] at h; subst h; rfl
+  | cons k l ih =>
+    simp only [diagEntries, throw_eq_error, error_bind, pure_eq_ok] at h
+    split at h
+    · simp at h
+    · split at h
+      · simp at h
+      · rw [bind_ok_iff] at h
+        obtain ⟨tl, htl, h⟩ := h
+        simp only [Except.ok.injEq] at h
+        subst h
+        simp [ih _ _ htl]
+
+theorem computeDiag_keys (ks : Key → Shape) (l : List Key) (d d' : Dict)
+    (h : computeDiag ks l d = .ok d') : d'.ty = .jacs ∧ d'.keys = l := by
+  simp only [computeDiag, throw_eq_error, error_bind] at h
+  split at h
+  · simp at h
+  · rw [bind_ok_iff] at h
+    obtain ⟨es, hes, h⟩ := h
+    have := mkDict_preserves _ _ _ _ h
+    subst this
+    exact ⟨rfl, diagEntries_keys _ _ _ _ _ hes⟩
+
+theorem mapM_keys {f : Key → Except Err (Key × Shape)} (hf : ∀ k r, f k = .ok r → r.1 = k)
+    (l : List Key) (es : List (Key × Shape)) (h : l.mapM f = .ok es) : es.map (·.1) = l := by
+  induction l generalizing es with
+  | nil => simp at h; subst h; rfl
+  | cons k l ih =>
+    simp only [List.mapM_cons, bind_ok_iff, pure_eq_ok, Except.ok.injEq] at h
+    obtain ⟨r, hr, rs, hrs, rfl⟩ := h
+    simp [hf k r hr, ih rs hrs]
+
+theorem stackDicts_keys (ks : Key → Shape) (ds : List Dict) (d' : Dict)
+    (h : stackDicts ks ds = .ok d') : d'.ty = .jacs ∧ d'.keys = unionKeys ds := by
+  simp only [stackDicts, bind_ok_iff] at h
+  obtain ⟨es, hes, h⟩ := h
+  have := mkDict_preserves _ _ _ _ h
+  subst this
+  refine ⟨rfl, mapM_keys ?_ _ _ hes⟩
+  intro k r hr
+  split at hr
+  · simp at hr
+  · split at hr
+    · simp only [pure_eq_ok, Except.ok.injEq] at hr
+      subst hr; rfl
+    · simp at hr
+
+theorem mem_unionKeys (ds : List Dict) (k : Key) : k ∈ unionKeys ds ↔ ∃ d ∈ ds, k ∈ d.keys := by
+  simp [unionKeys, mem_dedup]
+
+theorem unionDicts_ok (ks : Key → Shape) (ds : List Dict) (d' : Dict)
+    (h : unionDicts ks ds = .ok d') :
+    d' = ⟨ds.foldl (fun t d => lca t d.ty) DType.empty, ds.flatMap (·.entries)⟩ :=
+  mkDict_preserves _ _ _ _ h
+
+theorem flatMap_entries_keys (ds : List Dict) :
+    (ds.flatMap (·.entries)).map (·.1) = ds.flatMap (·.keys) := by
+  induction ds with
+  | nil => rfl
+  | cons d ds ih => simp [List.flatMap_cons, Dict.keys, ih]
+
+theorem applyList_cons_ok_iff (ks : Key → Shape) (t : Term) (ts : List Term) (d : Dict)
+    (rs : List Dict) :
+    applyList ks (t :: ts) d = .ok rs ↔
+      ∃ r rs', apply ks t d = .ok r ∧ applyList ks ts d = .ok rs' ∧ rs = r :: rs' := by
+  simp only [applyList, bind_ok_iff, pure_eq_ok, Except.ok.injEq]
+  constructor
+  · rintro ⟨s, hs, ss, hss, rfl⟩; exact ⟨s, ss, hs, hss, rfl⟩
+  · rintro ⟨s, ss, hs, hss, rfl⟩; exact ⟨s, hs, ss, hss, rfl⟩
+
+@[simp] theorem applyList_nil (ks : Key → Shape) (d : Dict) : applyList ks [] d = .ok [] := by
+  simp [applyList]
+
+/-! ### type soundness: keys -/
+
+theorem apply_ok_output_aux (ks : Key → Shape) :
+    (∀ t, ∀ σ d d', build t = .ok σ → apply ks t d = .ok d' → ∀ k, k ∈ d'.keys ↔ k ∈ σ.output) ∧
+    (∀ ts, ∀ sigs d rs, buildList ts = .ok sigs → applyList ks ts d = .ok rs →
+      ∀ k, (∃ r ∈ rs, k ∈ r.keys) ↔ (∃ s ∈ sigs, k ∈ s.output)) := by
+  apply Term.induct'
+  · -- init
+    intro l σ d d' hb ha k
+    rw [apply, guardKeys_ok_iff] at ha
+    obtain ⟨σ', h1, _, h3⟩ := ha
+    rw [hb] at h1; cases h1
+    have := mkDict_preserves _ _ _ _ h3
+    subst this
+    simp only [build, pure_eq_ok, Except.ok.injEq] at hb
+    subst hb
+    simp [Dict.keys]
+  · -- select
+    intro l req σ d d' hb ha k
+    rw [apply, guardKeys_ok_iff] at ha
+    obtain ⟨σ', h1, h2, h3⟩ := ha
+    rw [hb] at h1; cases h1
+    have := mkDict_preserves _ _ _ _ h3
+    subst this
+    simp only [build, pure_eq_ok, throw_eq_error, ite_ok_iff, subset_iff] at hb
+    obtain ⟨hsub, rfl⟩ := hb
+    simp only [Dict.keys, List.mem_map, List.mem_filterMap, mem_dedup] at h2 ⊢
+    constructor
+    · rintro ⟨e, ⟨k', hk', hf⟩, rfl⟩
+      have := List.find?_some hf
+      simp only [beq_iff_eq] at this
+      rw [this]; exact hk'
+    · intro hk
+      have hreq := hsub k hk
+      obtain ⟨e, he, rfl⟩ := (h2 k).1 hreq
+      cases hf : d.entries.find? (fun x => x.1 == e.1) with
+      | none =>
+        rw [List.find?_eq_none] at hf
+        exact absurd (hf e he) (by simp)
+      | some e' =>
+        have := List.find?_some hf
+        simp only [beq_iff_eq] at this
+        exact ⟨e', ⟨e.1, hk, hf⟩, this⟩
+  · -- diag
+    intro l σ d d' hb ha k
+    rw [apply, guardKeys_ok_iff] at ha
+    obtain ⟨σ', h1, _, h3⟩ := ha
+    rw [hb] at h1; cases h1
+    rw [(computeDiag_keys _ _ _ _ h3).2]
+    simp only [build, pure_eq_ok, throw_eq_error] at hb
+    split at hb
+    · simp at hb
+    · simp only [Except.ok.injEq] at hb; subst hb; rfl
+  · -- acc
+    intro l σ d d' hb ha k
+    rw [apply, guardKeys_ok_iff] at ha
+    obtain ⟨σ', h1, _, h3⟩ := ha
+    rw [hb] at h1; cases h1
+    simp only [build, pure_eq_ok, Except.ok.injEq] at hb
+    subst hb
+    split at h3
+    · have := mkDict_preserves _ _ _ _ h3
+      subst this; simp [Dict.keys]
+    · simp at h3
+  · -- stack
+    intro ts ih σ d d' hb ha k
+    rw [apply, guardKeys_ok_iff] at ha
+    obtain ⟨σ', h1, _, h3⟩ := ha
+    rw [hb] at h1; cases h1
+    obtain ⟨sigs, hs, _, rfl⟩ := (build_stack_ok_iff ts σ).1 hb
+    rw [bind_ok_iff] at h3
+    obtain ⟨rs, hrs, h3⟩ := h3
+    rw [(stackDicts_keys _ _ _ h3).2, mem_unionKeys, ih sigs d rs hs hrs k]
+    simp [mem_dedup]
+  · -- conj
+    intro ts ih σ d d' hb ha k
+    rw [apply, guardKeys_ok_iff] at ha
+    obtain ⟨σ', h1, _, h3⟩ := ha
+    rw [hb] at h1; cases h1
+    obtain ⟨sigs, hs, _, _, rfl⟩ := (build_conj_ok_iff ts σ).1 hb
+    rw [bind_ok_iff] at h3
+    obtain ⟨rs, hrs, h3⟩ := h3
+    have := unionDicts_ok _ _ _ h3
+    subst this
+    have := ih sigs d rs hs hrs k
+    simp only [Dict.keys, flatMap_entries_keys, List.mem_flatMap] at this ⊢
+    exact this
+  · -- comp
+    intro o i iho ihi σ d d' hb ha k
+    rw [apply, guardKeys_ok_iff] at ha
+    obtain ⟨σ', h1, _, h3⟩ := ha
+    rw [hb] at h1; cases h1
+    obtain ⟨σo, σi, ho, hi, _, rfl⟩ := (build_comp_ok_iff o i σ).1 hb
+    rw [bind_ok_iff] at h3
+    obtain ⟨mid, hmid, h3⟩ := h3
+    exact iho σo mid d' ho h3 k
+  · intro sigs d rs hb ha k
+    simp at hb ha
+    subst hb; subst ha; simp
+  · intro t ts iht ihts sigs d rs hb ha k
+    obtain ⟨s, ss, hs, hss, rfl⟩ := (buildList_cons_ok_iff t ts sigs).1 hb
+    obtain ⟨r, rs', hr, hrs', rfl⟩ := (applyList_cons_ok_iff ks t ts d rs).1 ha
+    simp only [List.mem_cons, exists_eq_or_imp]
+    rw [iht s d r hs hr k, ihts ss d rs' hss hrs' k]
+
+theorem apply_ok_output (ks : Key → Shape) (t : Term) (σ : Sig) (d d' : Dict)
+    (hb : build t = .ok σ) (ha : apply ks t d = .ok d') : ∀ k, k ∈ d'.keys ↔ k ∈ σ.output :=
+  (apply_ok_output_aux ks).1 t σ d d' hb ha
+
+/-! ### type soundness: dictionary class -/
+
+/-- type soundness for the dictionary class, stated for any function satisfying the defining
+    equations of `tyOf` (which is defined downstream in `TjdProps/C14.lean`) -/
+theorem apply_ok_type_gen (ks : Key → Shape)
+    (T : Term → DType → DType) (TL : List Term → DType → DType → DType)
+    (h_init : ∀ l τ, T (.init l) τ = .grads)
+    (h_select : ∀ l r τ, T (.select l r) τ = τ)
+    (h_diag : ∀ l τ, T (.diag l) τ = .jacs)
+    (h_acc : ∀ l τ, T (.acc l) τ = .empty)
+    (h_stack : ∀ ts τ, T (.stack ts) τ = .jacs)
+    (h_conj : ∀ ts τ, T (.conj ts) τ = TL ts τ .empty)
+    (h_comp : ∀ o i τ, T (.comp o i) τ = T o (T i τ))
+    (h_nil : ∀ τ acc, TL [] τ acc = acc)
+    (h_cons : ∀ t ts τ acc, TL (t :: ts) τ acc = TL ts τ (lca acc (T t τ))) :
+    ∀ t d d', apply ks t d = .ok d' → d'.ty = T t d.ty := by
+  refine (Term.induct' (P := fun t => ∀ d d', apply ks t d = .ok d' → d'.ty = T t d.ty)
+    (Q := fun ts => ∀ d rs acc, applyList ks ts d = .ok rs →
+      rs.foldl (fun t d => lca t d.ty) acc = TL ts d.ty acc) ?_ ?_ ?_ ?_ ?_ ?_ ?_ ?_ ?_).1
+  · intro l d d' ha
+    rw [apply, guardKeys_ok_iff] at ha
+    obtain ⟨σ', _, _, h3⟩ := ha
+    rw [mkDict_preserves _ _ _ _ h3, h_init]
+  · intro l r d d' ha
+    rw [apply, guardKeys_ok_iff] at ha
+    obtain ⟨σ', _, _, h3⟩ := ha
+    rw [mkDict_preserves _ _ _ _ h3, h_select]
+  · intro l d d' ha
+    rw [apply, guardKeys_ok_iff] at ha
+    obtain ⟨σ', _, _, h3⟩ := ha
+    rw [(computeDiag_keys _ _ _ _ h3).1, h_diag]
+  · intro l d d' ha
+    rw [apply, guardKeys_ok_iff] at ha
+    obtain ⟨σ', _, _, h3⟩ := ha
+    split at h3
+    · rw [mkDict_preserves _ _ _ _ h3, h_acc]
+    · simp at h3
+  · intro ts _ d d' ha
+    rw [apply, guardKeys_ok_iff] at ha
+    obtain ⟨σ', _, _, h3⟩ := ha
+    rw [bind_ok_iff] at h3
+    obtain ⟨rs, _, h3⟩ := h3
+    rw [(stackDicts_keys _ _ _ h3).1, h_stack]
+  · intro ts ih d d' ha
+    rw [apply, guardKeys_ok_iff] at ha
+    obtain ⟨σ', _, _, h3⟩ := ha
+    rw [bind_ok_iff] at h3
+    obtain ⟨rs, hrs, h3⟩ := h3
+    rw [unionDicts_ok _ _ _ h3, h_conj]
+    exact ih d rs .empty hrs
+  · intro o i iho ihi d d' ha
+    rw [apply, guardKeys_ok_iff] at ha
+    obtain ⟨σ', _, _, h3⟩ := ha
+    rw [bind_ok_iff] at h3
+    obtain ⟨mid, hmid, h3⟩ := h3
+    rw [h_comp, iho mid d' h3, ihi d mid hmid]
+  · intro d rs acc ha
+    simp at ha; subst ha
+    rw [h_nil]; rfl
+  · intro t ts iht ihts d rs acc ha
+    obtain ⟨r, rs', hr, hrs', rfl⟩ := (applyList_cons_ok_iff ks t ts d rs).1 ha
+    rw [h_cons, List.foldl_cons, iht d r hr]
+    exact ihts d rs' _ hrs'
+
+/-! ### associativity of composition -/
+
+theorem build_error_value (t : Term) (e : Err) (h : build t = .error e) : e = .value :=
+  build_error_aux.1 t e h
+
+/-- a build result is either `ok` or the `ValueError` -/
+theorem build_cases (t : Term) : (∃ σ, build t = .ok σ) ∨ build t = .error .value := by
+  cases h : build t with
+  | ok σ => exact Or.inl ⟨σ, rfl⟩
+  | error e => rw [build_error_value t e h]; exact Or.inr rfl
+
+theorem build_comp_eq (o i : Term) :
+    build (.comp o i) = (build o >>= fun so => build i >>= fun si =>
+      if seteq so.required si.output then .ok ⟨si.required, so.output⟩ else .error .value) := by
+  rw [build]; rfl
+
+theorem comp_assoc_build' (a b c : Term) :
+    build (.comp (.comp a b) c) = build (.comp a (.comp b c)) := by
+  rw [build_comp_eq, build_comp_eq a b, build_comp_eq a, build_comp_eq b c]
+  rcases build_cases a with ⟨sa, ha⟩ | ha <;> rw [ha] <;> simp only [ok_bind, error_bind]
+  rcases build_cases b with ⟨sb, hb⟩ | hb <;> rw [hb] <;> simp only [ok_bind, error_bind]
+  rcases build_cases c with ⟨sc, hc⟩ | hc <;> rw [hc] <;> simp only [ok_bind, error_bind]
+  · by_cases h1 : seteq sa.required sb.output = true <;>
+      by_cases h2 : seteq sb.required sc.output = true <;> simp [h1, h2]
+  · split <;> rfl
+
+/-! ### associativity of composition (application) -/
+
+theorem guardKeys_pos (σ : Sig) (d : Dict) (body : Unit → Except Err Dict)
+    (h : ∀ k, k ∈ σ.required ↔ k ∈ d.keys) : guardKeys (.ok σ) d body = body () := by
+  rw [guardKeys_ok, if_pos ((seteq_iff' _ _).2 h)]
+
+theorem apply_comp_eq (ks : Key → Shape) (o i : Term) (d : Dict) :
+    apply ks (.comp o i) d = guardKeys (build (.comp o i)) d fun _ =>
+      apply ks i d >>= fun mid => apply ks o mid := by
+  rw [apply]
+
+theorem comp_assoc_apply' (ks : Key → Shape) (a b c : Term) (d : Dict) :
+    apply ks (.comp (.comp a b) c) d = apply ks (.comp a (.comp b c)) d := by
+  rw [apply, apply, ← comp_assoc_build']
+  cases hB : build (.comp (.comp a b) c) with
+  | error e => rfl
+  | ok σ =>
+    obtain ⟨σab, σc, hab, hc, h2, rfl⟩ := (build_comp_ok_iff _ _ _).1 hB
+    obtain ⟨σa, σb, ha, hb, h1, rfl⟩ := (build_comp_ok_iff _ _ _).1 hab
+    dsimp only at h2 hB ⊢
+    by_cases hk : ∀ k, k ∈ σc.required ↔ k ∈ d.keys
+    · rw [guardKeys_pos ⟨σc.required, σa.output⟩ _ _ hk, guardKeys_pos ⟨σc.required, σa.output⟩ _ _ hk]
+      have hbc : build (.comp b c) = .ok ⟨σc.required, σb.output⟩ :=
+        (build_comp_ok_iff _ _ _).2 ⟨σb, σc, hb, hc, h2, rfl⟩
+      rw [apply_comp_eq ks b c d, hbc, guardKeys_pos ⟨σc.required, σb.output⟩ _ _ hk]
+      cases hm : apply ks c d with
+      | error e => rfl
+      | ok mid =>
+        simp only [ok_bind]
+        rw [apply, hab, guardKeys_pos]
+        intro k
+        rw [apply_ok_output ks c σc d mid hc hm k]
+        exact h2 k
+    · rw [guardKeys_ok, guardKeys_ok, if_neg (by rwa [seteq_iff']), if_neg (by rwa [seteq_iff'])]
+
+/-! ### conjunction: commutativity and associativity of construction -/
+
+theorem buildList_pair_ok_iff (x y : Term) (sigs : List Sig) :
+    buildList [x, y] = .ok sigs ↔ ∃ sx sy, build x = .ok sx ∧ build y = .ok sy ∧ sigs = [sx, sy] := by
+  simp only [buildList_cons_ok_iff, buildList_nil, Except.ok.injEq]
+  constructor
+  · rintro ⟨sx, _, hx, ⟨sy, _, hy, rfl, rfl⟩, rfl⟩
+    exact ⟨sx, sy, hx, hy, rfl⟩
+  · rintro ⟨sx, sy, hx, hy, rfl⟩
+    exact ⟨sx, _, hx, ⟨sy, _, hy, rfl, rfl⟩, rfl⟩
+
+theorem conj2_ok_iff (x y : Term) (σ : Sig) :
+    build (.conj [x, y]) = .ok σ ↔
+      ∃ sx sy, build x = .ok sx ∧ build y = .ok sy ∧ (∀ k, k ∈ sx.required ↔ k ∈ sy.required) ∧
+        (sx.output ++ sy.output).Nodup ∧
+        σ = ⟨dedup (sx.required ++ sy.required), sx.output ++ sy.output⟩ := by
+  rw [build_conj_ok_iff]
+  constructor
+  · rintro ⟨sigs, hs, hreq, hnd, rfl⟩
+    obtain ⟨sx, sy, hx, hy, rfl⟩ := (buildList_pair_ok_iff x y sigs).1 hs
+    refine ⟨sx, sy, hx, hy, hreq sx (by simp) sy (by simp), by simpa using hnd, by simp⟩
+  · rintro ⟨sx, sy, hx, hy, hreq, hnd, rfl⟩
+    refine ⟨[sx, sy], (buildList_pair_ok_iff x y _).2 ⟨sx, sy, hx, hy, rfl⟩, ?_, by simpa using hnd,
+      by simp⟩
+    intro s hs s' hs' k
+    simp only [List.mem_cons, List.not_mem_nil, or_false] at hs hs'
+    rcases hs with rfl | rfl <;> rcases hs' with rfl | rfl
+    · rfl
+    · exact hreq k
+    · exact (hreq k).symm
+    · rfl
+
+theorem conj_comm_ok (a b : Term) (σ : Sig) (h : build (.conj [a, b]) = .ok σ) :
+    ∃ σ', build (.conj [b, a]) = .ok σ' ∧
+      (∀ k, k ∈ σ.required ↔ k ∈ σ'.required) ∧ (∀ k, k ∈ σ.output ↔ k ∈ σ'.output) := by
+  obtain ⟨sa, sb, ha, hb, hreq, hnd, rfl⟩ := (conj2_ok_iff a b σ).1 h
+  refine ⟨_, (conj2_ok_iff b a _).2 ⟨sb, sa, hb, ha, fun k => (hreq k).symm, ?_, rfl⟩, ?_, ?_⟩
+  · exact (List.perm_append_comm.nodup_iff).1 hnd
+  · intro k; simp only [mem_dedup, List.mem_append]; exact or_comm
+  · intro k; simp only [List.mem_append]; exact or_comm
+
+theorem conj_comm_error (a b : Term) (e : Err) (h : build (.conj [a, b]) = .error e) :
+    build (.conj [b, a]) = .error e := by
+  have he := build_error_value _ _ h
+  subst he
+  rcases build_cases (.conj [b, a]) with ⟨σ', h'⟩ | h'
+  · obtain ⟨σ, hσ, _⟩ := conj_comm_ok b a σ' h'
+    rw [hσ] at h; cases h
+  · exact h'
+
+theorem conj_assoc_ok_left (a b c : Term) (σ : Sig) (h : build (.conj [.conj [a, b], c]) = .ok σ) :
+    ∃ σ', build (.conj [a, .conj [b, c]]) = .ok σ' ∧
+      (∀ k, k ∈ σ.required ↔ k ∈ σ'.required) ∧ (∀ k, k ∈ σ.output ↔ k ∈ σ'.output) := by
+  obtain ⟨sab, sc, hab, hc, hreq2, hnd2, rfl⟩ := (conj2_ok_iff _ _ σ).1 h
+  obtain ⟨sa, sb, ha, hb, hreq1, hnd1, rfl⟩ := (conj2_ok_iff _ _ sab).1 hab
+  simp only [mem_dedup, List.mem_append] at hreq2
+  rw [List.append_assoc] at hnd2
+  have hbc : build (.conj [b, c]) = .ok ⟨dedup (sb.required ++ sc.required), sb.output ++ sc.output⟩ := by
+    refine (conj2_ok_iff _ _ _).2 ⟨sb, sc, hb, hc, ?_, (List.nodup_append.1 hnd2).2.1, rfl⟩
+    intro k; have := hreq1 k; have := hreq2 k; grind
+  refine ⟨_, (conj2_ok_iff _ _ _).2 ⟨sa, _, ha, hbc, ?_, hnd2, rfl⟩, ?_, ?_⟩
+  · intro k; have := hreq1 k; have := hreq2 k
+    simp only [mem_dedup, List.mem_append]; grind
+  · intro k; simp only [mem_dedup, List.mem_append]; grind
+  · intro k; simp only [List.mem_append]; grind
+
+theorem conj_assoc_ok_right (a b c : Term) (σ' : Sig)
+    (h : build (.conj [a, .conj [b, c]]) = .ok σ') : ∃ σ, build (.conj [.conj [a, b], c]) = .ok σ := by
+  obtain ⟨sa, sbc, ha, hbc, hreq2, hnd2, rfl⟩ := (conj2_ok_iff _ _ σ').1 h
+  obtain ⟨sb, sc, hb, hc, hreq1, hnd1, rfl⟩ := (conj2_ok_iff _ _ sbc).1 hbc
+  simp only [mem_dedup, List.mem_append] at hreq2
+  rw [← List.append_assoc] at hnd2
+  have hab : build (.conj [a, b]) = .ok ⟨dedup (sa.required ++ sb.required), sa.output ++ sb.output⟩ := by
+    refine (conj2_ok_iff _ _ _).2 ⟨sa, sb, ha, hb, ?_, (List.nodup_append.1 hnd2).1, rfl⟩
+    intro k; have := hreq1 k; have := hreq2 k; grind
+  refine ⟨_, (conj2_ok_iff _ _ _).2 ⟨_, sc, hab, hc, ?_, hnd2, rfl⟩⟩
+  intro k; have := hreq1 k; have := hreq2 k
+  simp only [mem_dedup, List.mem_append]; grind
+
+/-! ### conjunction: commutativity of application -/
+
+theorem applyList_pair_ok_iff (ks : Key → Shape) (x y : Term) (d : Dict) (rs : List Dict) :
+    applyList ks [x, y] d = .ok rs ↔
+      ∃ rx ry, apply ks x d = .ok rx ∧ apply ks y d = .ok ry ∧ rs = [rx, ry] := by
+  simp only [applyList_cons_ok_iff, applyList_nil, Except.ok.injEq]
+  constructor
+  · rintro ⟨sx, _, hx, ⟨sy, _, hy, rfl, rfl⟩, rfl⟩
+    exact ⟨sx, sy, hx, hy, rfl⟩
+  · rintro ⟨sx, sy, hx, hy, rfl⟩
+    exact ⟨sx, _, hx, ⟨sy, _, hy, rfl, rfl⟩, rfl⟩
+
+theorem lca_comm' (a b : DType) : lca a b = lca b a := by
+  cases a <;> cases b <;> rfl
+
+theorem apply_conj_eq (ks : Key → Shape) (ts : List Term) (d : Dict) :
+    apply ks (.conj ts) d = guardKeys (build (.conj ts)) d fun _ =>
+      applyList ks ts d >>= fun rs => unionDicts ks rs := by
+  rw [apply]
+
+theorem conj_comm_apply' (ks : Key → Shape) (a b : Term) (d r : Dict)
+    (h : apply ks (.conj [a, b]) d = .ok r) :
+    ∃ r', apply ks (.conj [b, a]) d = .ok r' ∧ r'.ty = r.ty ∧ r'.entries.Perm r.entries := by
+  rw [apply_conj_eq, guardKeys_ok_iff] at h
+  obtain ⟨σ, hσ, hk, h⟩ := h
+  rw [bind_ok_iff] at h
+  obtain ⟨rs, hrs, hu⟩ := h
+  obtain ⟨ra, rb, ha, hb, rfl⟩ := (applyList_pair_ok_iff ks a b d rs).1 hrs
+  obtain ⟨σ', hσ', hreq, _⟩ := conj_comm_ok a b σ hσ
+  have hr := unionDicts_ok _ _ _ hu
+  obtain ⟨r', hr'⟩ : ∃ r', unionDicts ks [rb, ra] = .ok r' := by
+    have h1 : ∃ r, mkDict ks (lca (lca .empty ra.ty) rb.ty) (ra.entries ++ (rb.entries ++ [])) = .ok r :=
+      ⟨r, hu⟩
+    have h2 := mkDict_ok_congr ks _ _ (rb.entries ++ (ra.entries ++ [])) (by
+      intro e; simp only [List.append_nil, List.mem_append]; exact or_comm) h1
+    have hty : lca (lca .empty ra.ty) rb.ty = lca (lca .empty rb.ty) ra.ty := by
+      cases ra.ty <;> cases rb.ty <;> rfl
+    rw [hty] at h2
+    exact h2
+  have hr2 := unionDicts_ok _ _ _ hr'
+  refine ⟨r', ?_, ?_, ?_⟩
+  · rw [apply_conj_eq, guardKeys_ok_iff]
+    refine ⟨σ', hσ', fun k => (hreq k).symm.trans (hk k), ?_⟩
+    rw [bind_ok_iff]
+    exact ⟨[rb, ra], (applyList_pair_ok_iff ks b a d _).2 ⟨rb, ra, hb, ha, rfl⟩, hr'⟩
+  · rw [hr, hr2]
+    simp only [List.foldl_cons, List.foldl_nil]
+    cases ra.ty <;> cases rb.ty <;> rfl
+  · rw [hr, hr2]
+    simp only [List.flatMap_cons, List.flatMap_nil, List.append_nil]
+    exact List.perm_append_comm
+
 end Tjd.Typing
